@@ -31,6 +31,14 @@ TNext == /\ l <= Len(Trace)
                                \cup (IF valid /\ E.err = "" /\ <<E.got_min, E.got_max, E.got_preview>> # <<E.min, E.max, E.preview>>
                                      THEN {"C03:recording-lengths-misread"} ELSE {})
                       IN IF v = {} THEN TRUE ELSE PrintT(<<"VIOL", l, v>>)
+              ELSE IF E.ev = "cfgwindow"
+              THEN \* C04's window at the daemon's front door: the window the processor is built with answers Active, NextStart
+                   \* and NextEnd at every scripted instant as window.New(start, stop, latitude, longitude) of the configured
+                   \* values does (absolute and sunrise/sunset-relative windows alike)
+                   /\ UNCHANGED mon
+                   /\ LET v == (IF E.err # "" THEN {"C04:configured-window-rejected"} ELSE {})
+                               \cup (IF E.err = "" /\ E.got # E.ref THEN {"C04:configured-window-not-in-force"} ELSE {})
+                      IN IF v = {} THEN TRUE ELSE PrintT(<<"VIOL", l, v>>)
               ELSE IF E.ev = "longfiles"
               THEN \* C03 / C17 for recording lengths beyond 16 bits (max-secs*fps > 65535), counting sinks behind the real processor:
                    \* every finished continuous file holds max-secs*fps + 1 frames; under uninterrupted motion every motion
